@@ -48,11 +48,11 @@ macro_rules! query {
 }
 
 #[kani::proof]
-#[kani::unwind(130)]
+#[kani::unwind(44)]
 #[kani::stub(<scpi::parser::tokenizer::Tokenizer as core::iter::Iterator>::next, stub_next)]
 pub fn syst_err_next() {
     set_script(&[]);
-    let d0 = any_dev_with(any_queue(any_small_error));
+    let d0 = any_dev_with(any_queue(any_tiny_error));
     let mut d = d0;
     let mut out = alloc::vec::Vec::<u8>::new();
     kani::cover!(d0.q.len == 0);
@@ -91,11 +91,11 @@ pub fn syst_err_count() {
 }
 
 #[kani::proof]
-#[kani::unwind(130)]
+#[kani::unwind(44)]
 #[kani::stub(<scpi::parser::tokenizer::Tokenizer as core::iter::Iterator>::next, stub_next)]
 pub fn syst_err_all() {
     set_script(&[]);
-    let d0 = any_dev_with(any_queue(any_small_error));
+    let d0 = any_dev_with(any_queue(any_tiny_error));
     let mut d = d0;
     let mut out = alloc::vec::Vec::<u8>::new();
     kani::cover!(d0.q.len == 3);
@@ -105,7 +105,7 @@ pub fn syst_err_all() {
         assert!(bytes_eq(&out, b"0,\"No error\""), "C13/SystErrAllCommand::query/empty-queue-answers-no-error");
         assert!(d == d0, "C13/SystErrAllCommand::query/empty-queue-unchanged");
     } else {
-        let mut exp = [0u8; 320];
+        let mut exp = [0u8; 64];
         let mut k = 0;
         let mut i = 0;
         while i < d0.q.len {
